@@ -15,6 +15,9 @@ CONSTANTS
   ROSets = {{}, {1}, {2}}
   TickSizes = {1, 2}
   MaxTicks = 2
+  Filter = "none"
+  NoLockSet = {FALSE}
+  TickInList = TRUE
   POR = FALSE
   MaxHist = 0
 VIEW view
